@@ -19,12 +19,13 @@ _done = False
 def child_env(extra=None):
     """Environment for worker subprocesses."""
     e = dict(os.environ)
+    # numeric precision is the library's business (it switches jax to 64 bit when imported): do not preset it
+    e.pop("JAX_ENABLE_X64", None)
     e.update(
         {
             GUARD: "1",
             "PYTHONHASHSEED": "0",
             "JAX_PLATFORMS": "cpu",
-            "JAX_ENABLE_X64": "1",
             "OMP_NUM_THREADS": "1",
             "OPENBLAS_NUM_THREADS": "1",
             "MKL_NUM_THREADS": "1",
